@@ -123,6 +123,7 @@ class C13(RexDriver):
              ('refine', 'E2: sets of 4-5 from the class-refinement pools x 8 '
               'Size settings x {default, max_patterns=1}, tagged run '
               'replaying the same answers')]
+        L += self.round3_layers()
         if tier == 'thorough':
             L += [('t-n1-wide', 'singles over Sigma_t (L<=2) and Sigma_q '
                    '(L=3) x 152 points [hash seed 0 only]'),
@@ -206,6 +207,10 @@ class C13(RexDriver):
                             for p in ({}, {'max_patterns': 1}):
                                 yield {'ex': xs, 'size': st, 'seed': None,
                                        'prune': dict(p, **kw)}
+        elif layer in ('uclasses', 'meta-roles', 'zero-counts',
+                       'sampled-counts', 'real-random'):
+            for c in self.round3_cases(layer):
+                yield c
         elif layer == 't-n1-wide':
             seen = set(self.pool_q())
             for s in (A.strings_upto(A.SIGMA_T, 2)
@@ -240,6 +245,32 @@ class C13(RexDriver):
                 yield {'ex': xs, 'pts': 'prune', 'forms': 'list'}
         else:
             raise ValueError(layer)
+
+    def round3_layers(self):
+        """The shared round-3 layers (mc.checks.c03.RexDriver.round3_cases),
+        every point run with tag off and on."""
+        d = dict(RexDriver.round3_layers(self))
+        d['uclasses'] = d['uclasses'].replace(
+            'x 12 option points', 'x {default, variableLengthFrags, + extra '
+            'letters _-.}, tag off/on')
+        d['meta-roles'] = d['meta-roles'].replace(
+            'x 12 option points', 'x {portable, perl, grep, extra letters '
+            '-, _-.} x variableLengthFrags off/on, tag off/on,')
+        d['zero-counts'] += ('; incl. pruning options; an all-zero '
+                             'dictionary is an empty input')
+        d['sampled-counts'] += ('; tagged run replaying the same answers; '
+                                'default and min_strings_per_pattern=2')
+        d['real-random'] += ('; tag off then on: for an integer seed on '
+                             'whatever state the first call left, for seed '
+                             'None from the same pre-state')
+        return [(k, d[k]) for (k, _) in RexDriver.round3_layers(self)]
+
+    def sampled_count_cases(self, prune=None):
+        for c in RexDriver.sampled_count_cases(self, {}):
+            yield c
+            if c['form'] == 'dict' and len(c['ex']) == 3 and \
+                    c['counts'] in A.count_vectors(3):
+                yield dict(c, prune={'min_strings_per_pattern': 2})
 
     def sampled13(self, pool, sizes_all, sizes_default_only, settings):
         for n in tuple(sizes_all) + tuple(sizes_default_only):
@@ -288,6 +319,14 @@ class C13(RexDriver):
                     and o['extra_letters'] in (None, '_-.')
                     and (o['variableLengthFrags']
                          or o['extra_letters'] is None)]
+        elif name == 'meta':
+            d = dict((k, v[0]) for (k, v) in ax.items())
+            opts = []
+            for o in A.META_OPTION_POINTS:
+                if not o['tag']:
+                    o2 = dict(d, **o)
+                    del o2['tag']
+                    opts.append(o2)
         elif name == 'prune-vlf':
             opts = [o for o in allpts if prune_dev(o) <= 1
                     and not o['strip'] and not o['remove_empties']
@@ -302,11 +341,18 @@ class C13(RexDriver):
         return opts
 
     def form_points(self, pts, forms):
+        d = dict((k, v[0]) for (k, v) in self.axes_notag().items())
+        if forms == 'dicts':
+            # the examples ARE a mapping
+            return ([('dict', o) for o in self.points(pts)]
+                    + [(f, d) for f in A.DICT_FORMS[1:]])
         out = [('list', o) for o in self.points(pts)]
         if forms == 'all':
-            d = dict((k, v[0]) for (k, v) in self.axes_notag().items())
-            out.append(('dict', d))
+            out += [(f, d) for f in A.DICT_FORMS]
             out += [('pd:%s' % k, d) for k in A.PANDAS_KINDS]
+        elif forms == 'lite':
+            out.append(('dict', d))
+            out.append(('pd:object', d))
         return out
 
     # ----------------------------------------------------------- oracle
@@ -353,6 +399,15 @@ class C13(RexDriver):
             return [('tag-matches', 'tag-only-grouping',
                      {'untagged': rexF, 'tagged': rexT,
                       'matched_untagged': mF, 'matched_tagged': mT})]
+        # "changes only the grouping": expression by expression (in some
+        # order - no position is demanded) the same supplied strings match
+        vF = sorted(M.match_vector(r, probes) for r in rexF)
+        vT = sorted(M.match_vector(r, probes) for r in rexT)
+        if vF != vT:
+            return [('tag-vectors', 'tag-only-grouping',
+                     {'untagged': rexF, 'tagged': rexT, 'probes': probes,
+                      'vectors_untagged': [list(v) for v in vF],
+                      'vectors_tagged': [list(v) for v in vT]})]
         return []
 
     def evaluate(self, R, supplied, form, opts):
@@ -467,17 +522,18 @@ class C13(RexDriver):
 
     # --------------------------------------------------------------- E2
     def run_sampled(self, R, case):
-        ex, size, seed = case['ex'], case['size'], case['seed']
+        ex, size, seed = self.case_examples(case), case['size'], case['seed']
+        form = case.get('form', 'list')
         opts = dict((k, v[0]) for (k, v) in self.axes_notag().items())
         opts.update(case['prune'])
-        supplied = list(ex)
+        supplied = self.supplied(ex, form)
         kept = M.kept_examples(supplied)
 
         def run(ch):
             fake = S.FakeRandom(ch)
             o = dict(opts)
             o['tag'] = False
-            rex, _, exc = self.call(ex, 'list', o, size=size, seed=seed,
+            rex, _, exc = self.call(ex, form, o, size=size, seed=seed,
                                     fake=fake)
             return rex, exc, fake.n_samples
 
@@ -486,8 +542,9 @@ class C13(RexDriver):
             nexec += 1
             R.ev()
             sub = {'choices': choices}
-            base = {'examples': supplied, 'size': size, 'seed': seed,
-                    'options': A.opt_key(opts), 'sample_choices': choices}
+            base = {'examples': supplied, 'form': form, 'size': size,
+                    'seed': seed, 'options': A.opt_key(opts),
+                    'sample_choices': choices}
             # tagged run with the same answers
             ch2 = Chooser(choices)
             fake2 = S.FakeRandom(ch2)
@@ -495,7 +552,7 @@ class C13(RexDriver):
             o['tag'] = True
             diverged = None
             try:
-                rexT, _, excT = self.call(ex, 'list', o, size=size,
+                rexT, _, excT = self.call(ex, form, o, size=size,
                                           seed=seed, fake=fake2)
             except Diverged as e:
                 rexT, excT, diverged = None, None, str(e)
@@ -535,11 +592,69 @@ class C13(RexDriver):
                 seen.add((kind, clause))
                 detail = dict(base)
                 detail.update(info)
-                R.viol(self.sampled_sig(R, kind, supplied, opts), clause,
-                       detail, sub)
+                R.viol(self.sampled_sig(R, kind, supplied, opts, form),
+                       clause, detail, sub)
         R.states = nexec
 
-    def sampled_sig(self, R, kind, supplied, opts):
+    # ------------------------------------------------- real random module
+    def run_real(self, R, case):
+        """The sampled path on the REAL random module: tag off, then tag on.
+        With an integer seed the extraction is reproducible whatever the
+        process-wide generator holds, so the second call runs on whatever
+        state the first one left; with seed None the caller fixes the
+        generator: both calls start from the same pre-state."""
+        ex, size, seed = self.case_examples(case), case['size'], case['seed']
+        form = case['form']
+        opts = dict((k, v[0]) for (k, v) in self.axes_notag().items())
+        supplied = self.supplied(ex, form)
+        kept = M.kept_examples(supplied)
+        results = {}
+        failed = []
+        with S.real_random(case['real']):
+            for tag in (False, True):
+                if seed is None:
+                    S.set_real_state(case['real'])
+                o = dict(opts)
+                o['tag'] = tag
+                rex, _, exc = self.call(ex, form, o, size=size, seed=seed,
+                                        real=True)
+                R.ev()
+                if exc is not None:
+                    failed.append(('raises:%s' % type(exc).__name__,
+                                   'extract-returns',
+                                   {'tag': tag, 'exception': repr(exc)[:300]}))
+                    continue
+                results[tag] = rex
+                for (k, c, info) in self.clauses(rex, supplied, opts):
+                    failed.append((k, c, dict(info, tag=tag, returned=rex)))
+        if len(results) == 2:
+            failed += self.tag_clause(results[False], results[True], supplied)
+        if results.get(False):
+            R.nontrivial = True
+        if not failed:
+            R.out('real:%d/%d' % (len(results[False]), len(kept)))
+            return
+        R.out('V:real:%s' % '+'.join(sorted(set(f[0] for f in failed))))
+        seen = set()
+        for (kind, clause, info) in failed:
+            if (kind, clause) in seen:
+                continue
+            seen.add((kind, clause))
+            detail = {'examples': supplied, 'form': form, 'size': size,
+                      'seed': seed, 'global_prestate': case['real']}
+            detail.update(info)
+            if kind.startswith('tag-'):
+                # does the difference need the real generator?  (with the
+                # seam, both runs get the same answers)
+                sig = 'real-random:%s:seed=%s' % (
+                    kind, 'None' if seed is None else
+                    'zero' if seed == 0 else 'nonzero')
+            else:
+                sig = self.sampled_sig(R, 'sampled-' + kind, supplied, opts,
+                                       form)
+            R.viol(sig, clause, detail)
+
+    def sampled_sig(self, R, kind, supplied, opts, form='list'):
         """Signature of a clause failing on the sampled path: if the same
         clause also fails without sampling, the signature of that (same root
         cause as on the unsampled path); otherwise `<kind>:sampling-only`."""
@@ -548,7 +663,7 @@ class C13(RexDriver):
         base_kind = kind[len('sampled-'):]
 
         def fails(s2, o2):
-            f2, _ = self.evaluate(Res(), s2, 'list', o2)
+            f2, _ = self.evaluate(Res(), s2, form, o2)
             R.ev(2, checked=0)
             return any(f[0] == base_kind for f in f2)
         if not fails(supplied, opts):
